@@ -15,7 +15,7 @@ import (
 func init() {
 	Register(&Rule{
 		Name:  "R-UNKNOWN-FORCES",
-		Props: []string{"C06"},
+		Props: []string{"C06", "C17", "C04"},
 		Min:   1,
 		Doc: "a highest complete chunk the receiver could not hash is sent again (F46): in the sender's applyResumeInfo, under the condition that the reported hash is resumeHashUnknown, the variable that becomes resumePlan.forceSendFrom is lowered to the reported chunk " +
 			"(`if F > V { F = V }`), and nothing raises it again before the plan is built - the comparison is switched off for such a report, so the force-send range is the only thing that repairs that chunk",
@@ -175,6 +175,7 @@ func runUnknownForces(c *Ctx) {
 		}
 		// the lowering: if ... F > V ... { F = V } inside a branch whose conditions imply hu
 		var lower *ast.AssignStmt
+		extraCond := ""
 		var stack []ast.Node
 		ast.Inspect(f.Body, func(m ast.Node) bool {
 			if m == nil {
@@ -200,6 +201,12 @@ func runUnknownForces(c *Ctx) {
 					if a.Val && ObjOf(info, a.E) == hu {
 						underHU = true
 					}
+					// another boolean beside the hash-unknown test narrows the case in which the chunk is sent again
+					if o := ObjOf(info, a.E); o != nil && o != hu {
+						if b, ok := o.Type().Underlying().(*types.Basic); ok && b.Kind() == types.Bool {
+							extraCond = o.Name()
+						}
+					}
 					if be, ok := ast.Unparen(a.E).(*ast.BinaryExpr); ok && a.Val {
 						if (be.Op == token.GTR && fvars[ObjOf(info, be.X)] && ObjOf(info, be.Y) == vobj) || (be.Op == token.LSS && ObjOf(info, be.X) == vobj && fvars[ObjOf(info, be.Y)]) {
 							guarded = true
@@ -215,6 +222,11 @@ func runUnknownForces(c *Ctx) {
 		if lower == nil {
 			c.Bad(key, f.Pos(), "when the receiver reports its highest complete chunk with the hash unknown, the comparison is switched off but the force-send index is not lowered to that chunk (`if F > V { F = V }` under the hash-unknown condition): "+
 				"unless that chunk happens to be the file's last one it is skipped on the strength of the bitmap alone - a chunk torn by a power loss stays torn and both sides report success")
+			continue
+		}
+		if extraCond != "" {
+			c.Bad(key, lower.Pos(), "the lowering of the force-send index for a report with an unknown hash also depends on `"+extraCond+"`: where that does not hold (a file whose every chunk is marked) the chunk the receiver could not hash - and has withdrawn its claim on - "+
+				"is neither compared nor sent again; FileEnd announces no frame for it, the receiver waits for it or keeps a torn chunk")
 			continue
 		}
 		// nothing raises F between the lowering and the plan literal
